@@ -10,7 +10,7 @@
 (* The ring is Z_P (exact rationals logged as residues) or, with P = 0,    *)
 (* the integers (i32/i64/f32/f64 monomorphisations on small integers).     *)
 (***************************************************************************)
-EXTENDS VekMat, TLC, Json, IOUtils
+EXTENDS VekXform, TLC, Json, IOUtils
 Rec == ndJsonDeserialize(IOEnv.TRACE)
 VARIABLE l
 
@@ -21,15 +21,6 @@ Mat2H(h, a, b) ==
       [] h = "cols_mul"     -> V4Cols(MatMul(M2Cols(a), M2Cols(b)))
       [] h = "cols_adj_mul" -> V4Cols(MatMul(Adj2(M2Cols(a)), M2Cols(b)))
       [] h = "cols_mul_adj" -> V4Cols(MatMul(M2Cols(a), Adj2(M2Cols(b))))
-
-\* rigid inverse [R|t]^-1 = [R^T | -R^T t]                                  | inverted_affine_transform_no_scale
-RigidInv(A) == LET R == [i \in 1 .. 3 |-> [j \in 1 .. 3 |-> A[j][i]]]
-                   t == <<A[1][4], A[2][4], A[3][4]>>
-                   rt == MatVec(R, t)
-               IN [i \in 1 .. 4 |-> [j \in 1 .. 4 |->
-                     IF i <= 3 /\ j <= 3 THEN R[i][j]
-                     ELSE IF i <= 3 THEN FNeg(rt[i])
-                     ELSE IF j = 4 THEN F1 ELSE F0]]
 
 Expected(e) ==
     CASE e.op = "mul_mm" -> MatMul(e.a, e.b)
